@@ -41,6 +41,13 @@ pub struct Timing {
     /// byte first, as in the specification's timing diagram of the multiple block write)
     #[serde(default)]
     pub stop_gap: bool,
+    /// the card keeps the error bits of its status register until the host reads them with CMD13
+    /// (clear condition "C" of the card-status table), and raises OUT_OF_RANGE when a multi-block
+    /// read has delivered the last block of the card and reads ahead (Physical Layer
+    /// Specification 4.3.3: "the host should ignore OUT_OF_RANGE error that may occur even the
+    /// sequence is correct") or when a command names a block beyond the card
+    #[serde(default)]
+    pub sticky_status: bool,
 }
 
 #[derive(Clone, Debug, Serialize, Deserialize, PartialEq)]
@@ -195,6 +202,8 @@ pub struct CardInner {
     streaming_read: Option<u32>,
     write_addr: u32,
     last_write_failed: bool,
+    /// error bits of the status register (second byte of R2) waiting to be read
+    sticky: u8,
     // monitor
     pub viol: Vec<String>,
     pub cmd_log: Vec<(u8, u32)>,
@@ -271,6 +280,7 @@ impl SimCard {
             streaming_read: None,
             write_addr: 0,
             last_write_failed: false,
+            sticky: 0,
             viol: Vec::new(),
             cmd_log: Vec::new(),
             monitor_on: true,
@@ -562,6 +572,8 @@ impl CardInner {
                 if self.last_write_failed {
                     st |= 0x04;
                 }
+                st |= self.sticky;
+                self.sticky = 0;
                 self.respond(&[r1, st]);
             }
             (false, 17) => match self.addr_to_block(arg) {
@@ -570,7 +582,12 @@ impl CardInner {
                     let d = self.mem_rd(b);
                     self.queue_data_block(&d);
                 }
-                Err(e) => self.respond(&[e]),
+                Err(e) => {
+                    if self.timing.sticky_status && e == 0x40 {
+                        self.sticky |= 0x80;
+                    }
+                    self.respond(&[e])
+                }
             },
             (false, 18) => match self.addr_to_block(arg) {
                 Ok(b) => {
@@ -579,7 +596,12 @@ impl CardInner {
                     let d = self.mem_rd(b);
                     self.queue_data_block(&d);
                 }
-                Err(e) => self.respond(&[e]),
+                Err(e) => {
+                    if self.timing.sticky_status && e == 0x40 {
+                        self.sticky |= 0x80;
+                    }
+                    self.respond(&[e])
+                }
             },
             (false, 12) => {
                 if self.streaming_read.is_none() {
@@ -600,7 +622,12 @@ impl CardInner {
                         self.multi_writes_seen += 1;
                     }
                 }
-                Err(e) => self.respond(&[e]),
+                Err(e) => {
+                    if self.timing.sticky_status && e == 0x40 {
+                        self.sticky |= 0x80;
+                    }
+                    self.respond(&[e])
+                }
             },
             (true, 23) => {
                 self.respond(&[0x00]);
@@ -722,6 +749,9 @@ impl CardInner {
                     self.streaming_read = Some(nb);
                     let d = self.mem_rd(nb);
                     self.queue_data_block(&d);
+                } else if self.timing.sticky_status {
+                    // read-ahead behind the last block
+                    self.sticky |= 0x80;
                 }
             }
         }
